@@ -1,4 +1,5 @@
 import Unimock.Model.Output
+import Unimock.Lemmas.OutputKind
 /-!
 # C17 — composite returns reproduce the configured value shape-for-shape
 
@@ -261,3 +262,76 @@ example :
   refine ⟨_, rfl, ?_, ?_⟩ <;> simp [output]
 
 end Unimock.Output
+
+/-! ## from the return type written in the trait to the observed value
+
+The theorems above start from an output kind. Which kind a method gets is decided by the attribute from
+the *syntax* of its return type (`Model/Codegen/OutputKind.determine`, compared token for token with the
+real macro on every run). The theorems below close the gap: for every return type over the grammar
+(named types, references of every lifetime class, `Option`/`Result`/`Vec`/`Poll`, other generic paths,
+tuples, nested to any depth), if the assigned kind is one the run-time implements then it accepts every
+value of that type, and the caller observes exactly the configured value. -/
+namespace Unimock.Codegen.OutKind
+open Unimock.Output
+
+/-- **C17, the kind assigned to a return type fits the type**: every value of the type can be configured. -/
+theorem C17_assigned_kind_fits (ty : Ty) (k : Kind) (h : toKind (determine ty).1 (determine ty).2 = some k)
+    (once : Bool) (v : Val) (hv : hasType v ty = true) : (intoReturn once k v).isSome = true := by
+  cases ty with
+  | ref lt m e =>
+    simp only [determine] at h
+    cases lt <;> cases m <;> simp [refOwnership, toKind] at h <;> subst h <;> simp [intoReturn]
+  | named n =>
+    simp only [determine] at h
+    split at h
+    · exact mgk_fits (.named n) k h once v hv
+    · simp only [toKind, Option.some.injEq] at h; subst h; simp [intoReturn]
+  | app c args =>
+    simp only [determine] at h
+    split at h
+    · exact mgk_fits (.app c args) k h once v hv
+    · simp only [toKind, Option.some.injEq] at h; subst h; simp [intoReturn]
+  | tuple ts =>
+    simp only [determine] at h
+    split at h
+    · simp only [toKind, Option.map_eq_some_iff] at h
+      obtain ⟨ks, hks, rfl⟩ := h
+      cases v <;> simp [hasType] at hv
+      rename_i vs
+      have := wrapElems_fits ts ks hks once vs hv
+      simp only [intoReturn]
+      cases hx : intoReturnZip once ks vs with
+      | none => simp [hx] at this
+      | some ss => simp
+    · simp only [toKind, Option.some.injEq] at h; subst h; simp [intoReturn]
+
+/-- **C17 end to end, repeatable path**: return type ⟶ assigned kind ⟶ stored value ⟶ every call observes
+    the configured value, shape for shape, and the store is unchanged. -/
+theorem C17_return_type_roundtrip (ty : Ty) (k : Kind) (h : toKind (determine ty).1 (determine ty).2 = some k)
+    (v : Val) (hv : hasType v ty = true) : ∃ s, intoReturn false k v = some s ∧ output s = (some v, s) := by
+  have := C17_assigned_kind_fits ty k h false v hv
+  cases hs : intoReturn false k v with
+  | none => simp [hs] at this
+  | some s => exact ⟨s, rfl, C17_roundtrip v k s hs⟩
+
+/-- **C17 end to end, single-use path**: the first call observes the configured value; the second fails
+    exactly when the value has an owned leaf on its populated path. -/
+theorem C17_return_type_once (ty : Ty) (k : Kind) (h : toKind (determine ty).1 (determine ty).2 = some k)
+    (v : Val) (hv : hasType v ty = true) : ∃ s, intoReturn true k v = some s ∧ OnceSpec (hasOwned k v) v s := by
+  have := C17_assigned_kind_fits ty k h true v hv
+  cases hs : intoReturn true k v with
+  | none => simp [hs] at this
+  | some s => exact ⟨s, rfl, C17_once v k s hs⟩
+
+/-- non-vacuity: `Vec<Result<&T, E>>` gets `Deep<Vec<Shallow<Result<&'static T, E>>>>`, which the run-time implements -/
+example : toKind (determine (.app .vec (.cons (.app .result (.cons (.ref .elided false (.named "T")) (.cons (.named "E") .nil))) .nil))).1
+    (determine (.app .vec (.cons (.app .result (.cons (.ref .elided false (.named "T")) (.cons (.named "E") .nil))) .nil))).2
+    = some (.deepVec .shallowRes) := by rfl
+
+/-- and a combination the macro accepts but the run-time has no implementation for (rejected by rustc):
+    `Result<Option<&T>, E>` -/
+example : toKind (determine (.app .result (.cons (.app .option (.cons (.ref .elided false (.named "T")) .nil)) (.cons (.named "E") .nil)))).1
+    (determine (.app .result (.cons (.app .option (.cons (.ref .elided false (.named "T")) .nil)) (.cons (.named "E") .nil)))).2
+    = none := by rfl
+
+end Unimock.Codegen.OutKind
